@@ -629,11 +629,17 @@ func checkExitStatus(c *Ctx, rule string, pk, cmds *packages.Package) {
 		brk := pk.Types.Scope().Lookup("Breaking")
 		goan.WalkGuards(info, bd.Body, func(n ast.Node, guards []goan.Lit, loops []ast.Stmt) {
 			inc, ok := n.(*ast.IncDecStmt)
-			if !ok || inc.Tok != token.INC || len(loops) != 1 || len(guards) != 1 {
+			var gs []goan.Lit
+			for _, g := range guards {
+				if !g.NonEmpty {
+					gs = append(gs, g)
+				}
+			}
+			if !ok || inc.Tok != token.INC || len(loops) != 1 || len(gs) != 1 {
 				return
 			}
-			be, ok := ast.Unparen(guards[0].E).(*ast.BinaryExpr)
-			if !ok || !guards[0].Pos || be.Op != token.EQL {
+			be, ok := ast.Unparen(gs[0].E).(*ast.BinaryExpr)
+			if !ok || !gs[0].Pos || be.Op != token.EQL {
 				return
 			}
 			isB := func(e ast.Expr) bool { id, ok := e.(*ast.Ident); return ok && info.Uses[id] == brk }
